@@ -78,7 +78,7 @@ class AdvertisingDrv(Drv):
     family = "advertising"
     covers = ("Advertiser", "AdPlatform", "AudienceTier")
     ops = ("sentiment_drop", "sentiment_up")
-    cfgs = ("zero", "odd_zero", "dec_a", "dec_b")
+    cfgs = ("zero", "odd_zero", "dec_a", "dec_b", "dec_c", "dec_d", "dec_e")
 
     def build(self, cfg):
         self.platform = AdPlatform("platform")
